@@ -5,6 +5,8 @@ cd "$(dirname "$0")"
 export CARGO_NET_OFFLINE=true
 [ -f harness/Cargo.lock ] || cp /repo/Cargo.lock harness/Cargo.lock
 (cd harness && cargo build --offline 2>&1 | tail -3)
+[ -f harness-off/Cargo.lock ] || cp /repo/Cargo.lock harness-off/Cargo.lock
+(cd harness-off && cargo build --offline 2>&1 | tail -3)
 tlc -h >/dev/null 2>&1 || true
 mkdir -p out evidence
 echo "setup ok"
